@@ -29,6 +29,9 @@ def run(ctx):
     r6(ctx)
     ctx.rule("C13.R7", "K4/K3", "blocking-mode typestate of a connection's socket: non-blocking while the poller owns it, put back into blocking mode every time it is handed to a pool thread")
     blocking_mode(ctx, "C13.R7")
+    # keep-alive admission relies on the worker's force_close(): nothing else may lower or raise Response.must_close
+    from .c02 import must_close_writers
+    must_close_writers(ctx, "C13.R5")
 
 
 def blocking_mode(ctx, rid):
